@@ -95,6 +95,7 @@ def main(argv=None):
             ctx.begin_case(wl.name, idx)
             rng = ctx.case_rng(wl.name, idx)
             probe.clear_live()
+            tc = time.time()
             try:
                 if params is not None:
                     wl.fn(ctx, rng, idx, params[idx])
@@ -105,6 +106,7 @@ def main(argv=None):
                 probe.S.depth = 0
                 del probe.S.targets[:]
                 probe.monitor_error('driver', wl.name)
+            ctx.timing[wl.name] = ctx.timing.get(wl.name, 0.0) + time.time() - tc
     probe.disarm()
     if truncated:
         ctx.events['truncated_by_budget'] += 1
